@@ -35,4 +35,9 @@ def run(F, X, rep):
     H.p6_no_blocking_under_lock(C, rep, "C06-P6")
     R.t1_timer_value(C, rep, "C06-P7")
     R.t2_zero_means_immediate(C, rep, "C06-P7")
+    # "no later than one MPP timeout": the configured trampoline-mpp-timeout option is what reaches params.mpp_timeout
+    import p_c19
+    mb = p_c19.main_body(F)
+    if rep.anchor("C06-P7", "main coroutine", 1 if mb else 0):
+        p_c19.w_wiring(F, X, rep, mb, F.root_of(mb), rid="C06-P7")
     H.p8_hook_wrapper(C, rep, "C06-P8")
